@@ -294,3 +294,14 @@ func (e *Evidence) finish(t *testing.T) {
 		t.Errorf("%d new violation(s) recorded", n)
 	}
 }
+
+// regressFiles lists the curated regression cases of a property (shrunk
+// failures of defects that were found by the check and fixed since).
+func regressFiles(property string) []string {
+	if envShard != 0 {
+		return nil
+	}
+	dir := getenv("VERIF_REGRESS", "/verif/regress")
+	m, _ := filepath.Glob(filepath.Join(dir, property, "*.json"))
+	return m
+}
